@@ -277,13 +277,18 @@ def gen_scalar(rng, profile):
 
 
 def gen_list(rng, maxlen):
-    profile = rng.choice(["ints", "ints", "smallnum", "smallnum", "strs", "strs", "mixed-clean", "nums", "adversarial", "adversarial"])
-    n = rng.choice([0, 1, 2, 2, 3, 3, 4, 5, 6, 8, 12, maxlen])
+    long_case = maxlen > 20
+    if long_case:    # beyond 20 elements Go merges blocks: only the consistent domain is compared
+        profile = rng.choice(["ints", "smallnum", "strs", "mixed-clean"])
+        n = rng.randrange(21, maxlen + 1)
+    else:
+        profile = rng.choice(["ints", "ints", "smallnum", "smallnum", "strs", "strs", "mixed-clean", "nums", "adversarial", "adversarial"])
+        n = rng.choice([0, 1, 2, 2, 3, 3, 4, 5, 6, 8, 12, 20])
     base = [gen_scalar(rng, profile) for _ in range(n)]
     if base and rng.random() < 0.5:      # duplicates / equal values in other spellings
         for _ in range(rng.randrange(1, 4)):
             base.insert(rng.randrange(0, len(base) + 1), dict(rng.choice(base)))
-    return profile, base[:maxlen] if maxlen >= 20 else base
+    return profile, base[:maxlen]
 
 
 def pool(rng, size):
@@ -617,7 +622,7 @@ def run(chk):
     n_lists = 12000 if thorough else 1400
     cases = []
     for ci in range(n_lists):
-        long_case = rng.random() < 0.06
+        long_case = rng.random() < 0.08
         profile, base = gen_list(rng, 60 if long_case else 20)
         two = rng.random() < 0.2
         elems = []
